@@ -9,7 +9,7 @@ import sched as schedmod
 PROP_FILES = ["State/Properties_C14.v"]
 MANIFEST = dict(
     technique="Coq proof by invariants preserved by every atomic step of n processes over a file-system model (names/inodes/flock), for arbitrary schedules (list pid, lock time-outs as a scheduling outcome of try-lock-with-deadline); tied to /repo by driving real processes through explicit schedules with the verif-hooks barriers (tools/sched.py) and comparing final files, exit codes, messages, hook traces and lock waits with the model",
-    text="Theorems C14_no_torn_read, C14_final_is_some_writers, C14_written_is_complete, C14_never_blocked, C14_wait_bounded, C14_finishes_under_any_schedule, C14_snapshot_not_lost, C14_update_lock_exclusive, C14_update_lock_name_stable (the lock is taken on the inode <file>.lock denoted at open time; that name is never unbound or rebound), C14_lost_update_characterised hold for every number of processes, every command mix, every poll budget and every schedule (unbounded; D14, D15, D27 repaired, no known class; C14_unlocked_update_lost keeps the D15 witness for writers without the update lock). Tie: systematic + sampled (quick) or all (thorough) interleavings of the update-lock / load / lock / rename / unlock points of two real processes (sampled: three) for each command pair sharing a file (snapshot+snapshot, check+check on the cache, update-baseline+check --baseline, update-baseline x2 incl. temp-file points, snapshot+stats history) and each initial state, a three-snapshot schedule family around upd:before_lock / upd:after_lock / snap:after_load, the inode number of <file>.lock sampled after every event (must never change or vanish), model-free continuation of a schedule after a divergence so that the property oracle still judges its outcome, lock time-outs forced with SGV_LOCK_TIMEOUT_MS=200.",
+    text="Theorems C14_no_torn_read, C14_final_is_some_writers, C14_written_is_complete, C14_never_blocked, C14_wait_bounded, C14_finishes_under_any_schedule, C14_lock_wait_within_timeout (the polling loop as a state machine over elapsed/interval: gives up in [time-out, time-out + one poll interval); C14_doubling_backoff_overshoots is the counterexample for a doubling interval), C14_snapshot_not_lost, C14_update_lock_exclusive, C14_update_lock_name_stable (the lock is taken on the inode <file>.lock denoted at open time; that name is never unbound or rebound), C14_lost_update_characterised hold for every number of processes, every command mix, every poll budget and every schedule (unbounded; D14, D15, D27 repaired, no known class; C14_unlocked_update_lost keeps the D15 witness for writers without the update lock). Tie: systematic + sampled (quick) or all (thorough) interleavings of the update-lock / load / lock / rename / unlock points of two real processes (sampled: three) for each command pair sharing a file (snapshot+snapshot, check+check on the cache, update-baseline+check --baseline, update-baseline x2 incl. temp-file points, snapshot+stats history, check with auto_snapshot_on_check + snapshot) and each initial state, dedicated wall-clock measurements of a waiter blocked for good on the update lock / the exclusive / the shared lock with a 1000 ms time-out (bound: time-out + 50 ms + 0.25 s), a three-snapshot schedule family around upd:before_lock / upd:after_lock / snap:after_load, the inode number of <file>.lock sampled after every event (must never change or vanish), model-free continuation of a schedule after a divergence so that the property oracle still judges its outcome, lock time-outs forced with SGV_LOCK_TIMEOUT_MS=200.",
     note="Trusted: Coq kernel, extraction, kernel flock/rename semantics (State/Fs.v), the barrier hooks (a process is paused only AT a hook point); wall-clock bounds (no lock wait beyond the time-out) are measured on each run, not proved; C14_wait_bounded is the model-level statement (bounded number of own steps, never blocked).",
     ref="5 (C14), 9")
 
@@ -22,13 +22,17 @@ PTS_SNAP = ["upd:before_lock", "load:after_lock", "aw:after_lock", "aw:after_ren
 PTS_SNAP_READER = ["upd:before_lock"] + PTS_FULL
 # three snapshots paused around the update lock: lock file opened / lock held / history loaded
 PTS_UPD = ["upd:before_lock", "upd:after_lock", "snap:after_load"]
+# check with trend.auto_snapshot_on_check against a snapshot
+PTS_AUTO = ["upd:before_lock", "upd:after_lock", "snap:after_load", "aw:after_rename"]
+TIMING_MS = 1000            # lock time-out of the dedicated wait measurements
+TIMING_SLACK_S = 0.25       # allowed beyond time-out + one poll interval (an un-clamped doubling interval overshoots by 0.5 s)
 # two first-time writers paused inside the private part of the save as well (temp file creation / content)
 PTS_TEMP = ["load:after_open", "load:after_lock", "aw:after_create_temp", "aw:after_flush", "aw:after_open_target", "aw:after_lock", "aw:after_rename"]
 
 
 class Scen:
-    def __init__(self, name, kind, files, procs, init_cmds, pts=PTS_FULL):
-        self.name, self.kind, self.files, self.procs, self.init_cmds, self.pts = name, kind, files, procs, init_cmds, pts
+    def __init__(self, name, kind, files, procs, init_cmds, pts=PTS_FULL, config=None):
+        self.name, self.kind, self.files, self.procs, self.init_cmds, self.pts, self.config = name, kind, files, procs, init_cmds, pts, config
 
 
 def scenarios():
@@ -54,6 +58,8 @@ def scenarios():
              {1: {"args": ["check", "sa", "--no-sloc-cache", "--baseline", BASELINE, "--update-baseline", "all"], "now": NOW0 + 1, "model": "ub"},
               2: {"args": ["check", "sb", "--no-sloc-cache", "--baseline", BASELINE, "--update-baseline", "all"], "now": NOW0 + 2, "model": "ub"}},
              [(["check", "sc", "--no-sloc-cache", "--update-baseline", "all"], NOW0 - 100)], PTS_TEMP),
+        Scen("check(auto-snapshot)+snapshot", "history", dirs,
+             {1: {"args": ["check", ".", "--no-sloc-cache"], "now": NOW0 + 1, "model": "asnap"}, 2: snap(2)}, init_hist, PTS_AUTO, CONFIG_AUTO),
         Scen("snapshot+stats-history", "history", proj, {1: snap(1), 2: {"args": ["stats", "history"], "now": NOW0 + 2, "model": "hist"}}, init_hist, PTS_SNAP_READER),
         Scen("snapshot x3", "history", proj, {1: snap(1), 2: snap(2), 3: snap(3)}, init_hist, PTS_SNAP),
         Scen("snapshot x3 (update lock)", "history", proj, {1: snap(1), 2: snap(2), 3: snap(3)}, init_hist, PTS_UPD),
@@ -70,7 +76,7 @@ class Setup:
         self.init_entries = {}
         for init in ("absent", "valid"):
             sb = Sandbox(prefix="sgv-c14t-")
-            new_project(sb, sc.files)
+            new_project(sb, sc.files, sc.config)
             old_mtimes(sb)
             if init == "valid":
                 for args, now in sc.init_cmds:
@@ -108,8 +114,8 @@ class Setup:
         out = []
         for pid, pr in sorted(self.sc.procs.items()):
             m = pr["model"]
-            if m == "snap":
-                out.append("%d=snap:%d" % (pid, self.ids[self.own[pid][0]]))
+            if m in ("snap", "asnap"):
+                out.append("%d=%s:%d" % (pid, m, self.ids[self.own[pid][0]]))
             elif m in ("cc", "ub"):
                 out.append("%d=%s:%s" % (pid, m, self.val(self.own[pid])))
             else:
@@ -156,7 +162,7 @@ def mvalue(s):
     return None
 
 
-def run_real(cli, setup, init, m, sched=None):
+def run_real(cli, setup, init, m, sched=None, lock_ms=LOCK_MS):
     """Drive real processes through the model's plan; return observations."""
     sc = setup.sc
     with copy_of(setup.templates[init]) as sb:
@@ -165,7 +171,7 @@ def run_real(cli, setup, init, m, sched=None):
         tr = os.path.join(sb.base, "trace")
         for pid, pr in sc.procs.items():
             env = dict(sb.env)
-            env.update(base_env(pr["now"], {"SGV_TRACE": tr, "SGV_LOCK_TIMEOUT_MS": str(LOCK_MS)}))
+            env.update(base_env(pr["now"], {"SGV_TRACE": tr, "SGV_LOCK_TIMEOUT_MS": str(lock_ms)}))
             ctl.add(pid, [cli, "--color", "never"] + pr["args"], env, sb.proj)
         target = os.path.join(sb.proj, KIND_FILE[sc.kind])
         lockfile = target + ".lock"
@@ -188,13 +194,20 @@ def run_real(cli, setup, init, m, sched=None):
         sample()
         traces = read_trace(tr)
         st, doc, _ = read_state(target)
-        obs = {"divergence": div, "lock_inodes": inodes, "state": st, "entries": entries_of(sc.kind, doc) if doc else None,
+        obs = {"divergence": div, "lock_inodes": inodes, "lock_ms": lock_ms, "state": st, "entries": entries_of(sc.kind, doc) if doc else None,
                "temps": temp_files(os.path.dirname(target), os.path.basename(target)), "procs": {}}
         for pid, pr in ctl.procs.items():
             ospid = pr.p.pid if pr.p else None
             obs["procs"][pid] = {"rc": pr.rc, "out": pr.out.replace(sb.base, "<SB>"), "err": pr.err.replace(sb.base, "<SB>"),
                                  "trace": traces.get(ospid, []), "waits": pr.waits}
         return obs
+
+
+def reported(sc, pid, op):
+    """Did the process tell its user that the snapshot was recorded?"""
+    if sc.procs[pid]["model"] == "asnap":
+        return "Auto-snapshot recorded" in op["err"]
+    return "Snapshot recorded" in op["out"]
 
 
 def expected_rc(setup, pid, mp):
@@ -245,7 +258,7 @@ def compare(setup, init, m, o):
             mm.append({"relation": "SGV_TRACE of process %d == model trace" % pid, "impl": op["trace"], "model": mt})
         if op["rc"] != expected_rc(setup, pid, mp):
             mm.append({"relation": "exit status of process %d" % pid, "impl": [op["rc"], op["err"][-200:]], "model": expected_rc(setup, pid, mp)})
-        if ("Snapshot recorded" in op["out"]) != (mp["ack"] == "true"):
+        if reported(sc, pid, op) != (mp["ack"] == "true"):
             mm.append({"relation": "process %d reports Snapshot recorded" % pid, "impl": op["out"][:80], "model": mp["ack"]})
         if ("save skipped" in op["err"]) != ("!save_skipped" in mp["trace"]):
             mm.append({"relation": "process %d warns that the save was skipped" % pid, "impl": op["err"][-200:], "model": mp["saved"]})
@@ -253,9 +266,9 @@ def compare(setup, init, m, o):
             mm.append({"relation": "process %d warns about the update lock" % pid, "impl": op["err"][-200:], "model": mp["trace"]})
         if ("Failed to acquire read lock" in op["err"]) != ("!read_lock_timeout" in mp["trace"]):
             mm.append({"relation": "process %d warns about the read lock" % pid, "impl": op["err"][-200:], "model": mp["trace"]})
-        short = [w for w in op["waits"] if w[0] == "timeout" and w[2] < LOCK_MS / 1000.0 - 0.02]
+        short = [w for w in op["waits"] if w[0] == "timeout" and w[2] < o["lock_ms"] / 1000.0 - 0.02]
         if short:
-            mm.append({"relation": "a lock attempt the model lets time out waits for the whole time-out in process %d" % pid, "impl": short, "model": ">= %d ms" % LOCK_MS})
+            mm.append({"relation": "a lock attempt the model lets time out waits for the whole time-out in process %d" % pid, "impl": short, "model": ">= %d ms" % o["lock_ms"]})
         if sc.procs[pid]["model"] == "hist" and mp["phase"] == "done":
             n = len([x for x in mp["loaded"].split(",") if x and x != "e"])
             want = "No history entries found." if n == 0 else "History (%d of %d entries)" % (n, n)
@@ -276,7 +289,7 @@ def oracle(setup, init, m, o):
                 bad.append(("wait", "process %d waited %.2fs in one step (lock time-out %d ms)" % (pid, dt, LOCK_MS)))
         if "EOF while parsing" in op["err"] or "JSON" in op["err"] and op["rc"] == 2:
             bad.append(("torn-read", "process %d read an empty or torn %s file: %s" % (pid, sc.kind, op["err"].strip()[:100])))
-        if sc.procs[pid]["model"] == "snap" and "Snapshot recorded" in op["out"]:
+        if sc.procs[pid]["model"] in ("snap", "asnap") and reported(sc, pid, op):
             ts = setup.own[pid][0]
             if final is None or ts not in final:
                 skipped = "save skipped" in op["err"]
@@ -432,6 +445,7 @@ def run(ctx):
                 else:
                     fails.append(rec)
         free_stats = free_running(ctx, cli, setups_by_name, fails)
+        ctx.cov["lock_wait_timing"] = timing(ctx, cli, drv, setups_by_name, fails, mism)
     finally:
         for su in setups:
             su.close()
@@ -524,10 +538,52 @@ def free_running(ctx, cli, setups_by_name, fails):
     return stats
 
 
+TIMING = [
+    # (scenario, init, schedule at polls = 0, waiting process, what it waits for)
+    ("snapshot+snapshot", "valid", [1, 1, 2, 2], 2, "exclusive update lock held by a snapshot paused inside its load-modify-save section"),
+    ("update-baseline+check--baseline", "valid", [2, 2, 1, 1, 1, 1], 1, "exclusive lock on the baseline while a reader holds the shared lock"),
+    ("update-baseline+check--baseline", "valid", [1, 1, 1, 1, 2, 2], 2, "shared lock on the baseline while a writer holds the exclusive lock"),
+]
+
+
+def timing(ctx, cli, drv, setups_by_name, fails, mism):
+    """No process waits longer than the lock time-out: a waiter that finds the lock held for good gives
+    up after time-out (+ at most one 50 ms poll, C14_lock_wait_within_timeout). Measured with a
+    1000 ms time-out, one case at a time (nothing else of this check runs meanwhile); a measurement
+    above the bound is repeated (the machine may be loaded) and only the smallest one counts."""
+    want_ms = int(model(drv, ["wait\t%d\tconst" % TIMING_MS])[0])
+    bound = want_ms / 1000.0 + 0.05 + TIMING_SLACK_S
+    out = []
+    for name, init, s, waiter, what in TIMING:
+        su = setups_by_name[name]
+        m = parse_model(model(drv, [su.model_line(init, 0, s)])[0])
+        best, o = None, None
+        for attempt in range(4):
+            o = run_real(cli, su, init, m, s, lock_ms=TIMING_MS)
+            w = [x[2] for x in o["procs"][waiter]["waits"] if x[0] == "timeout"]
+            mm = compare(su, init, m, o)
+            if mm or len(w) != 1:
+                best = None
+                continue
+            best = w[0] if best is None else min(best, w[0])
+            if best <= bound:
+                break
+        case = {"scenario": name, "init": init, "polls": 0, "schedule": s, "lock_timeout_ms": TIMING_MS, "waiter": waiter, "waits_for": what}
+        if best is None:
+            mism.append({"relation": "timing case follows the model's plan (one time-out of the waiter)", "case": case, "impl": compare(su, init, m, o)[:2]})
+            continue
+        out.append({"waits_for": what, "waited_s": round(best, 3)})
+        if best > bound:
+            fails.append({"kind": "property-oracle", "class": "wait", "case": case,
+                          "what": "process %d waited %.3f s for a lock with a time-out of %d ms (bound: time-out + one 50 ms poll + %.2f s slack = %.2f s; model: %d ms)"
+                                  % (waiter, best, TIMING_MS, TIMING_SLACK_S, bound, want_ms)})
+    return {"lock_timeout_ms": TIMING_MS, "bound_s": round(bound, 3), "measured": out}
+
+
 def coq_cmd(tok):
     m, _, arg = tok.partition(":")
     lst = "[" + ";".join(arg.split(",")) + "]" if arg and arg != "e" else "[]"
-    return {"snap": "cmd_snapshot %s" % arg, "hist": "cmd_stats_history", "ub": "cmd_update_baseline %s" % lst,
+    return {"snap": "cmd_snapshot %s" % arg, "asnap": "cmd_auto_snapshot %s" % arg, "hist": "cmd_stats_history", "ub": "cmd_update_baseline %s" % lst,
             "cb": "cmd_check_baseline", "cc": "cmd_check_cache %s" % lst}[m]
 
 
